@@ -13,11 +13,14 @@ package props
 import (
 	"encoding/json"
 	"fmt"
+	"io"
+	"net/http"
 	"net/http/httptest"
 	"net/url"
 	"sort"
 	"strings"
 	"sync"
+	"sync/atomic"
 	"testing"
 	"time"
 
@@ -447,4 +450,157 @@ func c11Store(e *c11Engine, loc string) map[string]string {
 
 func TestC11(t *testing.T) {
 	vlib.Check(t, "C11", genC11, runC11)
+}
+
+// ---------------------------------------------------------------------
+// the HTTP service behind its own listener
+//
+// service.Listener (what `rulesys -max-pending` puts in front of the
+// service) refuses connections while too many requests are pending.  Clients
+// of different locations send requests over loopback connections, some of
+// them slow; whatever the limit, the process must survive, a request is
+// answered properly or (only with a limit) turned away, and afterwards every
+// location is served again.
+
+type c11lCase struct {
+	MaxPending int     `json:"maxPending"` // 0 = no limit
+	Clients    [][]int `json:"clients"`    // per client (= location): ms each request's script sleeps
+	Spin       []int   `json:"spin"`
+}
+
+func genC11l(t *rapid.T) c11lCase {
+	var c c11lCase
+	c.MaxPending = rapid.SampledFrom([]int{0, 1, 1, 2, 3}).Draw(t, "maxPending")
+	n := rapid.IntRange(2, 6).Draw(t, "clients")
+	for i := 0; i < n; i++ {
+		m := rapid.IntRange(1, 4).Draw(t, fmt.Sprintf("c%d.n", i))
+		var reqs []int
+		for j := 0; j < m; j++ {
+			reqs = append(reqs, rapid.SampledFrom([]int{0, 0, 5, 20}).Draw(t, fmt.Sprintf("c%d.r%d", i, j)))
+		}
+		c.Clients = append(c.Clients, reqs)
+		c.Spin = append(c.Spin, rapid.SampledFrom([]int{0, 0, 100, 10000}).Draw(t, fmt.Sprintf("spin%d", i)))
+	}
+	return c
+}
+
+func runC11l(c c11lCase) *vlib.Outcome {
+	o := &vlib.Outcome{}
+	if c.MaxPending < 0 || c.MaxPending > 64 || len(c.Clients) < 1 || len(c.Clients) > 16 || len(c.Spin) < len(c.Clients) {
+		o.Discard = true
+		return o
+	}
+	e, err := newC11Engine(false, false, 0)
+	if err != nil {
+		o.Fail("NEWSYSTEM", "%v", err)
+		return o
+	}
+	l, err := service.NewListener(newCtx(), e.hs, "127.0.0.1:0", false)
+	if err != nil {
+		o.Fail("LISTEN", "%v", err)
+		return o
+	}
+	e.hs.SetMaxPending(int32(c.MaxPending))
+	srv := &http.Server{Handler: e.hs}
+	served := make(chan error, 1)
+	go func() { served <- srv.Serve(l) }()
+	defer func() {
+		srv.Close()
+		select {
+		case <-served:
+		case <-time.After(5 * time.Second):
+		}
+	}()
+	base := "http://" + l.Addr().String()
+	client := &http.Client{Timeout: 20 * time.Second, Transport: &http.Transport{DisableKeepAlives: true}}
+	get := func(loc string, sleepMs int, tag string) (string, error) {
+		code := fmt.Sprintf("Env.sleep(%d); '%s'", sleepMs*1000000, tag)
+		q := url.Values{}
+		q.Set("location", loc)
+		q.Set("code", code)
+		resp, err := client.Get(base + "/api/loc/util/js?" + q.Encode())
+		if err != nil {
+			return "", err
+		}
+		defer resp.Body.Close()
+		body, _ := io.ReadAll(resp.Body)
+		if resp.StatusCode != 200 {
+			return "", fmt.Errorf("http %d %s", resp.StatusCode, strings.TrimSpace(string(body)))
+		}
+		return string(body), nil
+	}
+	var wg sync.WaitGroup
+	start := make(chan struct{})
+	problems := make([]string, len(c.Clients))
+	var turnedAway int32
+	for i := range c.Clients {
+		wg.Add(1)
+		go func(i int) {
+			defer wg.Done()
+			<-start
+			x := 0
+			for j := 0; j < c.Spin[i]; j++ {
+				x += j
+			}
+			_ = x
+			for j, ms := range c.Clients[i] {
+				tag := fmt.Sprintf("c%d.%d", i, j)
+				body, err := get(fmt.Sprintf("loc%d", i), ms, tag)
+				if err != nil {
+					if c.MaxPending > 0 {
+						// turned away (429, or the connection was cut)
+						atomic.AddInt32(&turnedAway, 1)
+						continue
+					}
+					problems[i] = fmt.Sprintf("request %d failed although there is no limit on pending requests: %v", j, err)
+					return
+				}
+				if !strings.Contains(body, tag) {
+					problems[i] = fmt.Sprintf("request %d was answered with %q, expected the value %q", j, body, tag)
+					return
+				}
+			}
+		}(i)
+	}
+	close(start)
+	wg.Wait()
+	select {
+	case err := <-served:
+		o.Fail("SERVER_STOPPED", "maxPending %d, clients %v: the HTTP server stopped serving: %v", c.MaxPending, c.Clients, err)
+		return o
+	default:
+	}
+	for i, p := range problems {
+		if p != "" {
+			o.Fail("REQUEST_NOT_SERVED", "maxPending %d, clients %v: client %d (location loc%d): %s", c.MaxPending, c.Clients, i, i, p)
+			return o
+		}
+	}
+	// afterwards, one at a time: every location is served
+	for i := range c.Clients {
+		var body string
+		var err error
+		for attempt := 0; attempt < 20; attempt++ {
+			if body, err = get(fmt.Sprintf("loc%d", i), 0, "after"); err == nil {
+				break
+			}
+			time.Sleep(20 * time.Millisecond)
+		}
+		if err != nil || !strings.Contains(body, "after") {
+			o.Fail("REQUEST_NOT_SERVED", "maxPending %d, clients %v: after the burst, location loc%d is not served: %q %v", c.MaxPending, c.Clients, i, body, err)
+			return o
+		}
+	}
+	if c.MaxPending > 0 && turnedAway > 0 {
+		o.NonTrivial = true
+		o.Label("turned-away")
+	}
+	if c.MaxPending == 0 {
+		o.NonTrivial = true
+	}
+	return o
+}
+
+func TestC11Listener(t *testing.T) {
+	vlib.Check(t, "C11", genC11l, runC11l)
 }
